@@ -7,6 +7,7 @@ External compressors (zstd, snappy, lz4, gorilla bit stream) are opaque function
 the hypothesis `decompress (compress b) = some b`.
 -/
 import OG.C07.LemmasInt
+import OG.C07.LemmasTime
 
 namespace OG.C07
 open OG.Gen.C07
@@ -123,5 +124,129 @@ theorem int_block_roundtrip (zstd : Bytes → Bytes) (unzstd : Bytes → Option 
 /-- non-vacuity: a const-delta block and its exact bytes. -/
 example : encodeInt (fun b => b) 0 [1#64, 2#64, 3#64]
     = some [0x10, 0, 0, 0, 0, 0, 0, 0, 2, 2, 2] := by decide
+
+/-! ## timestamps -/
+
+/-- **the chosen decimal scale divides every delta** (and is a power of ten that fits the
+8-byte field), so `delta / scale * scale = delta` in the decoder. -/
+theorem scale_divides_all (ds : List Nat) :
+    (∃ k, k ≤ 12 ∧ (timeInit ds).scale = 10 ^ k) ∧ ∀ d ∈ ds, d % (timeInit ds).scale = 0 :=
+  ⟨(timeInit_spec ds).1, (timeInit_spec ds).2.1⟩
+
+example : (timeInit [50, 1000, 3000]).scale = 10 ∧ (timeInit [30, 50]).scale = 1
+    ∧ (timeInit [0, 200, 0]).scale = 100 := by decide
+
+/-- **timestamp block**: for every sequence of times (any uint64 bit patterns, in any order),
+whatever mode `Time.Encoding` picks (const-delta / scaled simple8b / snappy / uncompressed,
+incl. the snappy → uncompressed fall-back), `Decoding` returns exactly the times. -/
+theorem time_block_roundtrip (snappy : Bytes → Bytes) (unsnappy : Bytes → Option Bytes)
+    (hz : ∀ b, unsnappy (snappy b) = some b) (pos : Nat) (xs : List W)
+    (hlen : 8 * xs.length < 2 ^ 32) :
+    ∃ bs, encodeTime snappy pos xs = some bs ∧ decodeTime unsnappy bs = some xs := by
+  unfold encodeTime
+  obtain _ | ⟨t0, _ | ⟨t1, _ | ⟨t2, rest⟩⟩⟩ := xs
+  · exact ⟨_, rfl, timeUncompressed_decode unsnappy _⟩
+  · exact ⟨_, rfl, timeUncompressed_decode unsnappy _⟩
+  · exact ⟨_, rfl, timeUncompressed_decode unsnappy _⟩
+  · dsimp only
+    have hds : ∀ d ∈ (deltas t0 (t1 :: t2 :: rest)).map (·.toNat), d < 2 ^ 64 := by
+      intro d hd
+      obtain ⟨x, _, rfl⟩ := List.mem_map.mp hd
+      exact x.isLt
+    obtain ⟨⟨k, hk, hsk⟩, hdiv, hs8, hcd⟩ := timeInit_spec ((deltas t0 (t1 :: t2 :: rest)).map (·.toNat))
+    have hn : ((deltas t0 (t1 :: t2 :: rest)).map (·.toNat)).length = rest.length + 2 := by simp
+    by_cases hc : (timeInit ((deltas t0 (t1 :: t2 :: rest)).map (·.toNat))).isConstDelta = true
+    · simp only [hc, if_true]
+      refine ⟨_, rfl, ?_⟩
+      have hall : ∀ e ∈ deltas t0 (t1 :: t2 :: rest), e = t1 - t0 := by
+        intro e he
+        have := hcd hc e.toNat (List.mem_map.mpr ⟨e, he, rfl⟩) (t1 - t0).toNat
+          (List.mem_map.mpr ⟨t1 - t0, by simp [deltas], rfl⟩)
+        exact BitVec.eq_of_toNat_eq this
+      have := timeConst_decode unsnappy t0 (t1 - t0) (deltas t0 (t1 :: t2 :: rest)) hall
+        (by simp only [deltas_length, List.length_cons] at hlen ⊢; omega)
+      rw [undeltas_deltas] at this
+      simpa using this
+    · simp only [hc, Bool.false_eq_true, if_false]
+      by_cases hs : (timeInit ((deltas t0 (t1 :: t2 :: rest)).map (·.toNat))).isSimple8b = true
+      · simp only [hs, if_true]
+        -- both arms of `if scale > 1` are the division by the scale
+        have hpos : 0 < 10 ^ k := Nat.pow_pos (by decide)
+        have hscaled : (if (timeInit ((deltas t0 (t1 :: t2 :: rest)).map (·.toNat))).scale > 1
+              then ((deltas t0 (t1 :: t2 :: rest)).map (·.toNat)).map
+                (· / (timeInit ((deltas t0 (t1 :: t2 :: rest)).map (·.toNat))).scale)
+              else (deltas t0 (t1 :: t2 :: rest)).map (·.toNat))
+            = ((deltas t0 (t1 :: t2 :: rest)).map (·.toNat)).map (· / 10 ^ k) := by
+          rw [hsk]
+          by_cases h1 : 10 ^ k > 1
+          · simp [h1]
+          · have : 10 ^ k = 1 := by omega
+            simp [this]
+        rw [hscaled]
+        have hsmall : ∀ v ∈ ((deltas t0 (t1 :: t2 :: rest)).map (·.toNat)).map (· / 10 ^ k), v < 2 ^ 60 := by
+          intro v hv
+          obtain ⟨d, hd, rfl⟩ := List.mem_map.mp hv
+          have h1 := hs8 hs d hd
+          have h2 : d / 10 ^ k ≤ d := Nat.div_le_self _ _
+          have hb := maxValue_bound
+          omega
+        obtain ⟨ws, h1, h2, h3, h4, _⟩ := encodeAllAux_roundtrip _ _ (Nat.le_refl _) hsmall
+        have henc : encodeAll (((deltas t0 (t1 :: t2 :: rest)).map (·.toNat)).map (· / 10 ^ k)) = some ws := h1
+        rw [henc]
+        refine ⟨_, rfl, ?_⟩
+        rw [hsk]
+        rw [decodeTime_mode _ _ (by decide) _ (by simp; omega)]
+        have e : decodeTimeBody unsnappy timeCompressedSimple8b = fun inp => decodeTimeS8b inp := by
+          funext inp
+          simp [decodeTimeBody, timeCompressedSimple8b, timeUncompressed, timeCompressedConstDelta]
+        rw [e]
+        show decodeTimeS8b _ = _
+        have p4 : (256 : Nat) ^ 4 = 2 ^ 32 := by decide
+        have p8 : (256 : Nat) ^ 8 = 2 ^ 64 := by decide
+        have hk64 : 10 ^ k < 256 ^ 8 := by
+          have : 10 ^ k ≤ 10 ^ 12 := Nat.pow_le_pow_right (by decide) hk
+          omega
+        simp only [List.length_map, deltas_length, List.length_cons] at h4 hlen hn ⊢
+        have hrun := timeRun_decodeAll (BitVec.ofNat 64 (10 ^ k)) ws _ t0 h2
+        have hback := scaled_back (10 ^ k) (deltas t0 (t1 :: t2 :: rest)) (by
+          intro x hx
+          have hd := hdiv x.toNat (List.mem_map.mpr ⟨x, hx, rfl⟩)
+          rw [hsk] at hd
+          exact hd)
+        rw [hback, undeltas_deltas] at hrun
+        exact decodeTimeS8b_of _ _ _ _ (10 ^ k) (ws.length + 1) (rest.length + 2 + 1) t0.toNat ws _
+          (by simp; omega) (readBE_be_lt _ hk64) (readBE_be_lt _ (by rw [p4]; omega))
+          (readBE_be_lt _ (by rw [p4]; omega)) (by simp; omega)
+          (unbeWords_beWords 8 (by decide) _ _ (by simp) (by
+            intro w hw
+            rcases List.mem_cons.mp hw with rfl | hw
+            · exact w_lt _
+            · rw [p8]; exact h3 w hw))
+          (by rw [w_ofNat_toNat]; exact hrun) (by simp)
+          |>.trans (by rw [w_ofNat_toNat])
+      · simp only [hs, Bool.false_eq_true, if_false]
+        by_cases hr : ratioLT (pos + 9 + (snappy (leWords (t0 :: t1 :: t2 :: rest))).length)
+            (leWords (t0 :: t1 :: t2 :: rest)).length minCompRetaNum minCompRetaDen = true
+        · rw [if_pos hr]
+          refine ⟨_, rfl, ?_⟩
+          rw [decodeTime_mode _ _ (by decide) _ (by simp)]
+          have e : decodeTimeBody unsnappy timeCompressSnappy = fun inp => decodeTimeSnappy unsnappy inp := by
+            funext inp
+            simp [decodeTimeBody, timeCompressedSimple8b, timeUncompressed, timeCompressedConstDelta,
+              timeCompressSnappy]
+          rw [e]
+          show decodeTimeSnappy unsnappy _ = _
+          have p4 : (256 : Nat) ^ 4 = 2 ^ 32 := by decide
+          simp only [ratioLT, minCompRetaNum, minCompRetaDen, decide_eq_true_eq, leWords_length] at hr
+          rw [decodeTimeSnappy_of unsnappy _ _ _ (leWords (t0 :: t1 :: t2 :: rest)) _ _
+            (readBE_be_lt _ (by rw [p4, leWords_length]; exact hlen))
+            (readBE_be_lt _ (by rw [p4]; omega)) rfl (hz _) rfl]
+          rw [unleWords_leWords _ _ (by simp; omega)]
+        · rw [if_neg hr]
+          exact ⟨_, rfl, timeUncompressed_decode unsnappy _⟩
+
+example : encodeTime (fun b => b) 0 [1000#64, 2000#64, 3500#64, 4000#64]
+    = some [0x20, 0, 0, 0, 0, 0, 0, 0, 100, 0, 0, 0, 2, 0, 0, 0, 4,
+            0, 0, 0, 0, 0, 0, 3, 232, 0xd0, 0, 5, 0, 0, 0xf0, 0, 10] := by decide
 
 end OG.C07
